@@ -171,6 +171,23 @@ def _uninstall(env, installed):
             delattr(env["self"], x)
 
 
+def _same_state(a, b, depth=0):
+    """Structural equality for the frame check: objects whose class has no __eq__ of its own (a deep copy of them is
+    never == the original) are compared attribute by attribute."""
+    if depth > 8 or type(a) is not type(b):
+        return False
+    if isinstance(a, (list, tuple)):
+        return len(a) == len(b) and all(_same_state(x, y, depth + 1) for x, y in zip(a, b))
+    if isinstance(a, dict):
+        return a.keys() == b.keys() and all(_same_state(a[k], b[k], depth + 1) for k in a)
+    if type(a).__eq__ is object.__eq__ and hasattr(a, "__dict__"):
+        return _same_state(vars(a), vars(b), depth + 1)
+    try:
+        return bool(a == b)
+    except Exception:
+        return False
+
+
 def check_call(fq, args, kwargs=None, contract=None, fn=None):
     """Run the real function on args under its contract.
 
@@ -388,7 +405,7 @@ def check_call(fq, args, kwargs=None, contract=None, fn=None):
             except Exception as ex:  # noqa
                 failures.append(("frame/same-arguments-same-result", "the same arguments by keyword raised %r" % (ex,)))
     for p, v in before.items():
-        if ba.arguments[p] != v:
+        if ba.arguments[p] != v and not _same_state(ba.arguments[p], v):
             failures.append(("frame/writes-outside-modifies", "argument %s changed from %s to %s"
                              % (p, short(v), short(ba.arguments[p]))))
     return {"status": "fail" if failures else "ok", "failures": failures, "observed": observed}
